@@ -19,6 +19,7 @@
 #include <ctime>
 #include <map>
 #include <string>
+#include <string_view>
 #include <utility>
 #include <vector>
 
@@ -65,6 +66,10 @@ public:
     _replace_all(_timestamp_format, "%R", "%H:%M");
     _replace_all(_timestamp_format, "%T", "%H:%M:%S");
 
+    // Conversions that print the time of day without being one of the two-character forms patched
+    // below stay frozen in the pre-formatted string, such formats are always given to strftime
+    _has_uncacheable_time_modifier = _contains_uncacheable_time_modifier(_timestamp_format);
+
     // Populate the initial parts that we will use to generate a pre-formatted string
     _populate_initial_parts(_timestamp_format);
   }
@@ -75,7 +80,7 @@ public:
     // First we check for the edge case where the given timestamp is back in time. This is when
     // the timestamp provided is less than our cached_timestamp. We only expect to format timestamps
     // that are incrementing not those back in time. In this case we just fall back to calling strfime
-    if (timestamp < _cached_timestamp)
+    if ((timestamp < _cached_timestamp) || _has_uncacheable_time_modifier)
     {
       _fallback_formatted = _safe_strftime(_timestamp_format.data(), timestamp, _time_zone).data();
       return _fallback_formatted;
@@ -364,6 +369,60 @@ protected:
     return buffer;
   }
 
+  /**
+   * The cached string is patched at the positions of "%H", "%M", "%S", "%I", "%k", "%l" and "%s",
+   * written exactly like that. strftime also accepts flags, a width and the E and O modifiers in
+   * front of the conversion character ("%-H", "%OS", "%EX") and has the locale's date and time
+   * "%c"; these are rendered by strftime itself and can not be patched.
+   * @return true if the format prints the time of day through such a conversion
+   */
+  QUILL_NODISCARD static constexpr bool _contains_uncacheable_time_modifier(std::string_view format) noexcept
+  {
+    for (size_t i = 0; (i + 1) < format.size(); ++i)
+    {
+      if (format[i] != '%')
+      {
+        continue;
+      }
+
+      size_t j = i + 1;
+
+      if (format[j] == '%')
+      {
+        // a literal percent sign
+        i = j;
+        continue;
+      }
+
+      while ((j < format.size()) &&
+             (format[j] == '_' || format[j] == '-' || format[j] == '^' || format[j] == '#' ||
+              (format[j] >= '0' && format[j] <= '9') || format[j] == 'E' || format[j] == 'O'))
+      {
+        ++j;
+      }
+
+      if (j >= format.size())
+      {
+        break;
+      }
+
+      char const c = format[j];
+      bool const has_flags_or_modifier = (j != (i + 1));
+
+      if ((c == 'c') ||
+          (has_flags_or_modifier &&
+           (c == 'H' || c == 'M' || c == 'S' || c == 'I' || c == 'k' || c == 'l' || c == 's' ||
+            c == 'X' || c == 'r' || c == 'R' || c == 'T')))
+      {
+        return true;
+      }
+
+      i = j;
+    }
+
+    return false;
+  }
+
   /***/
   static void _replace_all(std::string& str, std::string const& old_value, std::string const& new_value) noexcept
   {
@@ -447,6 +506,9 @@ private:
 
   /** gmtime or localtime */
   Timezone _time_zone{Timezone::GmtTime};
+
+  /** True when the format has to be given to strftime for every timestamp */
+  bool _has_uncacheable_time_modifier{false};
 };
 } // namespace detail
 
